@@ -25,8 +25,8 @@ length is not a multiple of 16, and a declared original length whose payload doe
 
 fn parts(t: Tier) -> Vec<Part> {
     let a = match t {
-        Tier::Quick => 400_000,
-        Tier::Thorough => 6_000_000,
+        Tier::Quick => 1_200_000,
+        Tier::Thorough => 12_000_000,
     };
     vec![tape("hidden", a, 1200)]
 }
